@@ -49,6 +49,7 @@ def programs(rng, tier):
             spec = [kind, L]
             P.add(["vs_summary", spec])
             P.add(["vs_roundtrip", spec])
+            P.add(["vs_assignment", spec])
             for q in (alpha if tier == "thorough" or len(names) <= 1 else rng.sample(alpha, 3)) + [b"zz"]:
                 P.add(["vs_var_by_name", spec, hx(q)])
             for v in range(len(names) + 2):
@@ -86,6 +87,9 @@ def programs(rng, tier):
         P.add(["vs_summary", spec])
         P.add(["vs_steps", L])
         P.add(["vs_roundtrip", spec])
+        P.add(["vs_assignment", spec])
+        if len(names) >= 3:
+            P.add(["vs_make3", names_sx(rng.sample(names, 3) if rng.random() < 0.8 else [names[0], names[1], names[0]])])
         if names:
             P.add(["vs_var_by_name", spec, hx(rng.choice(names))])
             P.add(["vs_var_by_name", spec, hx(rng.choice(names) + b"'")])
@@ -253,7 +257,17 @@ def py_expected(call):
                     seen.add(n)
                 res.append(["L"] + ids)
             return ["P", ["L"] + res, py_summary(out)]
+        if op == "vs_make3":
+            out = []
+            for x in call[1][1:]:
+                n = unhex(x)
+                if n in out or bad_name(n):
+                    raise Pan()
+                out.append(n)
+            return ["P", ["L", "0", "1", "2"], ["L"] + [hx(n) for n in out]]
         names = py_set(call[1])
+        if op == "vs_assignment":
+            return ["L"] + [["P", str(i), hx(n)] for i, n in enumerate(names)]
         if op == "vs_summary":
             return py_summary(names)
         if op == "vs_roundtrip":
@@ -314,7 +328,7 @@ def judge(st, V):
                                           relation="exact (names, ids, Option, PANIC, Display)"))
             return
         # size of the set involved
-        if op in ("vs_steps",):
+        if op in ("vs_steps", "vs_make3"):
             n = len(call[1]) - 1
         elif op == "vs_batches":
             n = sum(len(b) - 1 for b in call[1][1:])
